@@ -60,7 +60,7 @@ claim("C05",
       "the stdio+tls branch) and no verification callbacks exist; every success path of the server config with requireClientCert stores "
       "RequireAndVerifyClientCert and the config is never dereferenced on the failure path; a configured CA reaches RootCAs and ClientCAs; the StartTLS "
       "ServerName is the port-less host at every call site; every TLS primitive takes its config from the manager; both ends of a password-protected UDP "
-      "endpoint agree on KDF constants, salt scheme, cipher constructor, shards, and pass the cipher on. GetTlsConfig returns a fresh object on every call (callers set ServerName / InsecureSkipVerify on it). the CA pool is a fresh empty pool plus the configured CA only; the server handshake returns a non-TLS connection only where the ClientAuth-derived requirement flag is false or the carrier is secure; a tls.Dial to a resolved address has ServerName set from the upstream Hostname() on every path. the role-less base cert.Config is never used as a certificate manager outside package cert; Structural; chain validation is crypto/x509's.",
+      "endpoint agree on KDF constants, salt scheme, cipher constructor, shards, and pass the cipher on. GetTlsConfig returns a fresh object on every call (callers set ServerName / InsecureSkipVerify on it). the CA pool is a fresh empty pool plus the configured CA only; the server handshake returns a non-TLS connection only where the ClientAuth-derived requirement flag is false or the carrier is secure; a tls.Dial to a resolved address has ServerName set from the upstream Hostname() on every path. the role-less base cert.Config is never used as a certificate manager outside package cert; the ClientAuth-derived requirement flag is stored (and not as constant false) on every successful path after the handshake asked the manager for its configuration, its failure included; Structural; chain validation is crypto/x509's.",
       "Not decided: x509 chain validation and expiry, kcp cipher behaviour.")
 
 claim("C03",
